@@ -214,6 +214,11 @@ def gen_budget(rnd, profile=None):
             a['negate_amount'], b['negate_amount'] = rnd.choice([(True, None), (None, True), (True, False), (False, True)])
         sync_file_to_settings(a)
         sync_file_to_settings(b)
+    if n >= 2 and rnd.random() < 0.12:
+        # one file per month, all called the same
+        i, j = rnd.sample(range(n), 2)
+        sources[j]['name'] = sources[i]['name']
+        sources[j]['file'] = f"data/{sources[i]['name'].lower()}_b.csv"
     if want_supp:
         sup = gen_source(rnd, SUPP_NAME, supplemental=True)
         # supplemental rows: some amounts/dates copied from real rows so that cross-source rules fire
@@ -434,6 +439,52 @@ def materialize(spec, root):
     return os.path.join(root, 'config')
 
 
+def simple_source(name, file, rows, **kw):
+    s = {'name': name, 'file': file, 'cols': ['date', 'description', 'amount'], 'datefmt': '%Y-%m-%d', 'delimiter': None,
+         'has_header': None, 'decimal_separator': None, 'sign': '', 'negate_amount': None, 'supplemental': False,
+         'state': 'present', 'template': None, 'rows': rows}
+    s.update(kw)
+    return sync_file_to_settings(s)
+
+
+def simple_row(d, desc, q, **kw):
+    r = {'d': d, 'desc': desc, 'q': q, 'kind': 'POS', 'loc': '', 'style': 'plain', 'bad': None}
+    r.update(kw)
+    return r
+
+
+def csv_expect(spec):
+    """Ground truth for legacy CSV rules, stated by the generator (not by tally's code): a plain pattern P matches a
+    description D iff re.search(P, D.upper(), re.IGNORECASE); the first matching row with a category decides.
+    Returns {description: (merchant | None, category, subcategory)}; descriptions that reach a pattern with an inline
+    [modifier] are left out (their verdict depends on amount/date)."""
+    if spec['rules']['kind'] != 'csv':
+        return {}
+    out = {}
+    descs = {r['desc'] for s in spec['sources'] if not s['supplemental'] for r in s['rows'] if not r['bad']}
+    for d in descs:
+        res = (None, 'Unknown', 'Unknown')
+        for pat, merch, cat, sub, _tags in spec['rules']['csv']:
+            base = pat
+            mod = pat.endswith(']') and '[' in pat
+            if mod:
+                base = pat[:pat.index('[')]
+            try:
+                hit = re.search(base, d.upper(), re.IGNORECASE)
+            except re.error:
+                res = None
+                break
+            if hit and mod:
+                res = None
+                break
+            if hit and cat:
+                res = (merch, cat, sub)
+                break
+        if res:
+            out[d] = res
+    return out
+
+
 # ------------------------------------------------------------------ what the generator *intended* (ground truth)
 def intended_rows(s):
     """The (iso date, raw description, amount) a source's file means under settings consistent with the file
@@ -642,6 +693,9 @@ def toggle(spec, kind, i, rnd):
             b['views'] = b['views'][1:] or None
         else:
             b['views'] = [list(VIEW_POOL[1]), list(VIEW_POOL[0])]
+    elif kind == 'rename':
+        taken = {x['name'] for x in b['sources']}
+        s['name'] = next(n for n in ['Acct Nine', 'Acct Ten', 'Acct Eleven', 'Acct Twelve', 'Acct Thirteen'] if n not in taken)
     elif kind == 'currency_format':
         b['currency_format'] = '{amount} kr' if b.get('currency_format') != '{amount} kr' else None
     elif kind == 'supplemental':
